@@ -20,6 +20,8 @@ def _cases(tier):
             yield {"h": h}
         for h in A.histories(two, 3, 3):
             yield {"h": h}
+        for h in A.histories(one, 3, 3):
+            yield {"h": h}
         gmax = 3
     else:
         for h in A.histories(one, 3):
